@@ -14,6 +14,7 @@ the planner's choice of conditions (e.g. nothing under `_or`) by the twin-databa
 -/
 import DefraModel.Proofs.IndexRange
 import DefraModel.Proofs.IndexMaint
+import DefraModel.Proofs.IndexMulti
 namespace Defra.Props.C07
 open Defra Defra.Enc Defra.Bytes Defra.Index Defra.Props.C17
 
@@ -190,5 +191,74 @@ example :
     (([IndexMaint.Op.update 1 30, .delete 2, .create 3 7, .update 3 8] : List (IndexMaint.Op Nat)).foldl
       (IndexMaint.step (fun a => a % 10)) (IndexMaint.build (fun a => a % 10) [(1, 11), (2, 22)])).entries
       = [(0, 1), (8, 3)] := by decide
+
+/-! ### multi-entry (array) indexes and unique indexes -/
+
+/-- **A multi-entry index scan, de-duplicated and re-filtered, is exact.** Whatever list of documents an index scan
+    yields — with any number of repetitions, as an array or composite-over-array index produces — if it only yields
+    documents of the collection and misses no matching one, then de-duplicating it the way `memorizingIndexIterator`
+    does and re-applying the complete filter gives every matching document exactly once. -/
+theorem multi_entry_scan_exact {α : Type} [DecidableEq α] (docs scan : List α) (m : α → Bool)
+    (hd : docs.Nodup) (hsub : ∀ d ∈ scan, d ∈ docs) (hcomplete : ∀ d ∈ docs, m d = true → d ∈ scan) :
+    ((IndexMulti.dedupSeen [] scan).filter m).Perm (docs.filter m) :=
+  refilter_exact docs _ m hd (IndexMulti.nodup_dedupSeen scan [])
+    (fun d h => hsub d ((IndexMulti.mem_dedupSeen scan [] d).mp h).1)
+    (fun d h hm => (IndexMulti.mem_dedupSeen scan [] d).mpr ⟨hcomplete d h hm, by simp⟩)
+
+/-- without the de-duplication the statement is false: a document with two entries is listed twice -/
+example : ([7, 7, 8].filter (fun _ => true)) ≠ [7, 8] ∧ (IndexMulti.dedupSeen [] [7, 7, 8]).filter (fun _ => true) = [7, 8] := by
+  decide
+
+/-- **Unique indexes, every history of local writes.** After any sequence of creates, updates, deletes and creations
+    of unique indexes (each accepted or rejected by the rule of `collectionUniqueIndex`), identifiers are distinct and
+    no two live documents share a key without nil component under any unique index. -/
+theorem unique_index_never_shared_after_every_history (ops : List IndexMulti.Op) :
+    IndexMulti.UInv (ops.foldl (fun s op => (IndexMulti.step s op).1) {}) :=
+  IndexMulti.run_inv {} ops ⟨by simp, by intro fs hfs; cases hfs⟩
+
+/-- **… rejecting exactly the writes that would.** A create with a fresh identifier is rejected if and only if some
+    unique index has a key without nil component that the new document shares with a live one. -/
+theorem unique_index_rejects_exactly (s : IndexMulti.St) (d : IndexMulti.MDoc)
+    (hfresh : s.docs.any (·.k == d.k) = false) :
+    (IndexMulti.step s (.create d)).2 = false ↔
+      ∃ fs ∈ s.uniq, ∃ o ∈ s.docs, o.k ≠ d.k ∧ IndexMulti.Shares fs d o := by
+  simp only [IndexMulti.step, hfresh, Bool.false_eq_true, if_false]
+  by_cases hr : IndexMulti.rejectedBy s d = true
+  · simp only [hr, if_true, true_iff]
+    unfold IndexMulti.rejectedBy at hr
+    obtain ⟨fs, hfs, hc⟩ := List.any_eq_true.mp hr
+    exact ⟨fs, hfs, (IndexMulti.conflicts_iff fs d s.docs).mp hc⟩
+  · simp only [hr, Bool.false_eq_true, if_false, Bool.true_eq_false, false_iff]
+    rintro ⟨fs, hfs, o, ho, hk, hs⟩
+    exact IndexMulti.not_rejected (by simpa using hr) fs hfs o ho hk hs
+
+/-- the same for an update: rejected iff the new contents would share such a key with another live document -/
+theorem unique_index_update_rejects_exactly (s : IndexMulti.St) (d : IndexMulti.MDoc)
+    (hlive : s.docs.any (·.k == d.k) = true) :
+    (IndexMulti.step s (.update d)).2 = false ↔
+      ∃ fs ∈ s.uniq, ∃ o ∈ s.docs, o.k ≠ d.k ∧ IndexMulti.Shares fs d o := by
+  simp only [IndexMulti.step, hlive, Bool.not_true, Bool.false_eq_true, if_false]
+  by_cases hr : IndexMulti.rejectedBy s d = true
+  · simp only [hr, if_true, true_iff]
+    unfold IndexMulti.rejectedBy at hr
+    obtain ⟨fs, hfs, hc⟩ := List.any_eq_true.mp hr
+    exact ⟨fs, hfs, (IndexMulti.conflicts_iff fs d s.docs).mp hc⟩
+  · simp only [hr, Bool.false_eq_true, if_false, Bool.true_eq_false, false_iff]
+    rintro ⟨fs, hfs, o, ho, hk, hs⟩
+    exact IndexMulti.not_rejected (by simpa using hr) fs hfs o ho hk hs
+
+/-! non-vacuity: a unique index on (name, nums): sharing one array element under the same name is rejected, a nil
+    name never collides, and the value is free again after a delete -/
+section
+open IndexMulti Query
+def dA : MDoc := ⟨1, .str [97], .int 3, some [.int 1, .int 2], none⟩
+def dB : MDoc := ⟨2, .str [97], .int 4, some [.int 2, .int 5], none⟩
+def dC : MDoc := ⟨3, .null, .int 4, some [.int 2], none⟩
+example :
+    let s0 : St := { uniq := [["name", "nums"]] }
+    let s1 := (step s0 (.create dA)).1
+    (step s1 (.create dB)).2 = false ∧ (step s1 (.create dC)).2 = true ∧
+      (step (step s1 (.delete 1)).1 (.create dB)).2 = true := by decide
+end
 
 end Defra.Props.C07
